@@ -217,8 +217,8 @@ def run(ctx):
         return
     from vf.draw import draw_stratified
     from vf.runner import case_hash, load_regress
-    cases = load_regress(ctx.prop, name) + draw_stratified(strata(), 24 if ctx.quick else 300,
-                                                           ctx.seed)
+    cases = load_regress(ctx.prop, name) + gen_cfg.alternate_histories(
+        draw_stratified(strata(), 24 if ctx.quick else 300, ctx.seed), ('edited', 'semantics'))
     if not ctx.quick:
         for i, case in enumerate(cases):
             case['asan'] = i % 2 == 0  # thorough: every second model under ASan+UBSan
